@@ -465,6 +465,11 @@ class World(object):
                 return {"level": v["level"], "tag": v["tag"]}
             if k == "none":
                 return None
+            if k == "topics":
+                # a long list of (topic filter, QoS) pairs
+                return [("%s%d" % (v.get("p", "t/"), i), v["q"][i % len(v["q"])]) for i in range(v["n"])]
+            if k == "names":
+                return ["%s%d" % (v.get("p", "t/"), i) for i in range(v["n"])]
             raise ValueError("bad arg spec %r" % (v,))
         if isinstance(v, list):
             return [self.decode_arg(x) for x in v]
@@ -934,7 +939,7 @@ class World(object):
                 else:
                     payload = payload.encode("utf-8")
                 p = {"type": "PUBLISH", "qos": qos, "dup": bool(st.get("dup")), "retain": bool(st.get("retain")),
-                     "topic": st.get("topic", "t"), "payload": payload, "id": st.get("id")}
+                     "topic": self.decode_arg(st.get("topic", "t")), "payload": payload, "id": st.get("id")}
                 if qos > 0:
                     i = p["id"]
                     if i is None or not (1 <= i <= 65535):
